@@ -114,12 +114,12 @@ theorem liveReaders_pos {P : Partition} (s : GState V) (r : Nat) (n : Name) (p :
   exact List.mem_filter.2 ⟨hp, by simpa using ⟨hn, hne⟩⟩
 
 /-- the invariants are preserved by every step of a well-formed partition -/
-theorem inv_step {P : Partition} {lvl : Nat → Nat → Nat} {round : Nat → Nat → Nat → Nat}
-    (hwf : WFwith P lvl round) {s s' : GState V} {l : Label}
+theorem inv_step {P : Partition} {lvl : Nat → Nat → Nat}
+    (hwf : WFexecWith P lvl) {s s' : GState V} {l : Label}
     (hinv : Inv P s) (h : Step sem P s l s') : Inv P s' := by
   cases h with
   | exec r p hr hp hrdy =>
-    obtain ⟨hpids, _, _, _, _, hsentout, _⟩ := hwf r hr
+    obtain ⟨hpids, _, _, _, hsentout, _, _⟩ := hwf r hr
     obtain ⟨hne, hneeds, hrecvs⟩ := hrdy
     refine ⟨?_, ?_, ?_, ?_, ?_⟩
     · -- closed
@@ -296,9 +296,9 @@ theorem inv_step {P : Partition} {lvl : Nat → Nat → Nat} {round : Nat → Na
       · simp only [deliverG, hrr, if_false] at hq ⊢
         exact hinv.kept r' n hq hnrd
 
-theorem inv_reachable {P : Partition} (hwf : WF P) {s : GState V} (hr : Reachable sem P s) :
+theorem inv_reachable {P : Partition} (hwf : WFexec P) {s : GState V} (hr : Reachable sem P s) :
     Inv P s := by
-  obtain ⟨lvl, round, hwf⟩ := hwf
+  obtain ⟨lvl, hwf⟩ := hwf
   induction hr with
   | init => exact inv_init sem P
   | step _ hstep ih => exact inv_step sem hwf ih hstep
@@ -331,13 +331,13 @@ theorem ancestors_executed {P : Partition} {s : GState V} (hinv : Inv P s) (r : 
 /-- **No use before production, no use after release**: in every reachable state of a
     well-formed partition, a part that the executor may run finds all its input names in the
     context. -/
-theorem inputs_present_lemma {P : Partition} (hwf : WF P) {s : GState V}
+theorem inputs_present_lemma {P : Partition} (hwf : WFexec P) {s : GState V}
     (hreach : Reachable sem P s) {r : Nat} {p : Part} (hr : r < P.length)
     (hp : p ∈ P.parts r) (hrdy : p.ready (s.rk r)) :
     ∀ n ∈ p.inputs, ((s.rk r).ctx n).isSome := by
   have hinv := inv_reachable sem hwf hreach
-  obtain ⟨lvl, round, hwf⟩ := hwf
-  obtain ⟨hpids, _, _, _, _, _, hreads, _⟩ := hwf r hr
+  obtain ⟨lvl, hwf⟩ := hwf
+  obtain ⟨hpids, _, _, _, _, hreads, _⟩ := hwf r hr
   obtain ⟨hne, hneeds, hrecvs⟩ := hrdy
   have hneedsOf : ∀ x ∈ needsOf (P.parts r) p.pid, x ∈ (s.rk r).executed := by
     intro x hx
@@ -399,7 +399,7 @@ theorem restrict_agree {P : Partition} {ref : Nat → Name → V} {s : GState V}
     | some v => rw [hag.ctx r m v hc]
   · simp [hm]
 
-theorem agree_reachable {P : Partition} (hwf : WF P) {ref : Nat → Name → V}
+theorem agree_reachable {P : Partition} (hwf : WFexec P) {ref : Nat → Name → V}
     (hsol : IsSolution sem P ref) {s : GState V} (hreach : Reachable sem P s) :
     Agree P ref s := by
   induction hreach with
@@ -477,15 +477,15 @@ theorem agree_reachable {P : Partition} (hwf : WF P) {ref : Nat → Name → V}
 /-- **Faithfulness**: when a well-formed partition has run to completion — under any
     interleaving and any `Waitsome` outcomes — every overall output of every rank is in the
     context and holds the reference solution. -/
-theorem faithful_lemma {P : Partition} (hwf : WF P) {ref : Nat → Name → V}
+theorem faithful_lemma {P : Partition} (hwf : WFexec P) {ref : Nat → Name → V}
     (hsol : IsSolution sem P ref) {s : GState V} (hreach : Reachable sem P s)
     (hterm : Terminal P s) (r : Nat) (hr : r < P.length) :
     ∀ n ∈ P.overall r, (s.rk r).ctx n = some (ref r n) := by
   intro n hn
   have hinv := inv_reachable sem hwf hreach
   have hag := agree_reachable sem hwf hsol hreach
-  obtain ⟨lvl, round, hwf'⟩ := hwf
-  obtain ⟨_, _, _, _, hprod, _, _, _, _, _, _, _, hnotread, _⟩ := hwf' r hr
+  obtain ⟨lvl, hwf'⟩ := hwf
+  obtain ⟨_, _, _, hprod, _, _, hnotread⟩ := hwf' r hr
   have hmem := hprod n hn
   unfold allOutputs at hmem
   obtain ⟨q, hq, hqn⟩ := List.mem_flatMap.1 hmem
